@@ -200,6 +200,23 @@ impl Prop for C03 {
         mk(nth_weighted(4, idx / 2, &pal), l4[(idx % 2) as usize])
     }
 
+    fn shrink(c: &Case) -> Vec<Case> {
+        let mut out: Vec<Case> = gen::shrink_wdg(&c.g, gen::simpler_usize)
+            .into_iter()
+            .map(|(g, k)| Case {
+                g,
+                sources: gen::relabel_list(&c.sources, k),
+                family: String::new(),
+            })
+            .collect();
+        out.extend(gen::shrink_list(&c.sources).into_iter().map(|s| Case {
+            g: c.g.clone(),
+            sources: s,
+            family: String::new(),
+        }));
+        out
+    }
+
     fn check(c: &Case, obs: &mut Obs) -> Verdict {
         let m = reprs::wmodel_of(&c.g);
         let g = reprs::build_weighted(&c.g);
